@@ -180,7 +180,9 @@ def pinv(v):
     return Fraction(0) if v == 0 else 1 / v
 
 
-VTREES = ('dict', 'list', 'tuple', 'none')
+# (None is a pytree *leaf* for furax.tree.is_leaf and has no .ndim: AttributeError, like a Python scalar -
+# outside the type annotation and the model)
+VTREES = ('dict', 'list', 'tuple')
 
 
 class Check(PropertyCheck):
@@ -193,7 +195,7 @@ class Check(PropertyCheck):
         'Import ListNotations.\nOpen Scope Z_scope.'
     )
     shard = 500
-    workers = 4
+    workers = 5
     trusted = [
         'jnp.moveaxis (canonicalize_axis, order construction, lax.transpose element map) and Array.reshape '
         '(row-major data kept) as specified in Model/Axes.v; jnp.broadcast_shapes / the broadcasting product / '
@@ -239,7 +241,7 @@ class Check(PropertyCheck):
             r = len(sh)
             for vs in vshapes:
                 for axes in axis_specs(len(vs)):
-                    if r <= 2 or not quick or rng.random() < 0.1:
+                    if r <= 2 or not quick or rng.random() < 0.06:
                         add(vs, axes, [sh], full=rng.random() < 0.01)
         # (b) pytrees whose leaves have different ranks
         trees = [[[3], [2, 3]], [[2, 3], [3]], [[3, 3], [3]], [[2], [2, 3, 2]], [[], [2]], [[1, 3], [3], [2, 1, 3]]]
@@ -309,7 +311,8 @@ class Check(PropertyCheck):
                               'ins': [sh], 'xs': [[str(Fraction(v, 1)) for v in [1, 2, -4, 8, 2, -2, 4, 1, 2, 4, 8, -1][: prod(sh)]]]})
         cases.append({'kind': 'inverse', 'vs': [3], 'dd': ['0', '2', '1/2'], 'axes': 0,
                       'ins': [[3], [3, 2]], 'xs': [['1', '2', '4'], ['1', '2', '4', '8', '-2', '-4']]})
-        self.exhaustive = False
+        # the thorough tier enumerates scope (a) - the DESIGN scope E - completely (the other streams are samples)
+        self.exhaustive = not quick
         return cases
 
     def search_cases(self):
@@ -324,7 +327,7 @@ class Check(PropertyCheck):
         return (
             'diag: (a) ALL leaf shapes of rank <= 2 (thorough: <= 3) over dims {1,2,3} x ALL value shapes of rank 1-2 '
             'over {1,2,3} x EVERY scalar axis in [-4,3] and EVERY tuple of distinct axes in [-4,4] in every order, both '
-            'classes per case (quick: 10% seeded sample of the rank-3 leaves); (b) pytrees with leaves of different '
+            'classes per case (quick: 6% seeded sample of the rank-3 leaves); (b) pytrees with leaves of different '
             'rank x 8 value shapes x the same axis specifications; (c) malformed: repeated axes as written, the empty '
             'tuple, tuples shorter/longer than values.ndim, list-typed axis_destination; (d) rank-0 values, dict / '
             'list / tuple / None values; (e) seeded random: ranks <= 4, rank-3 values, axes in [-6,6]; (f) '
@@ -361,8 +364,6 @@ class Check(PropertyCheck):
             return [d, d]
         if t == 'tuple':
             return (d,)
-        if t == 'none':
-            return None
         return d
 
     def run_impl(self, case):
